@@ -67,6 +67,9 @@ func TestC16(t *testing.T) {
 				}
 			}
 			c.Query = q
+		} else if rapid.IntRange(0, 3).Draw(t, "mergepair") == 0 {
+			// rewritten selectors with modifiers: the hinted range must stay sufficient
+			c.Query = drawMergePair(t, c)
 		}
 		return c
 	})
